@@ -5,6 +5,11 @@ from .prog import Case, S
 from .collmodel import Node, SHAPES
 
 
+# Clearing a window is generated only where the per-tick flags are the subject (C04, C05): the engine refuses to RECORD a
+# cleared window ("TSW clear ticks are not representable by the legacy scalar delta" - an explicit error, not a silent loss).
+WINDOW_CLEARS = False
+
+
 def gen_op(rng, node, effective, universe=6, allow_invalidate=False):
     """One op string for `node` (model state is NOT mutated). None if nothing sensible."""
     k = node.kind
@@ -22,6 +27,8 @@ def gen_op(rng, node, effective, universe=6, allow_invalidate=False):
             return f"-{rng.choice(cands)}" if cands else f"+{rng.randrange(universe)}"
         return "c" if (node.val or not effective) else f"+{rng.randrange(universe)}"
     if k == "tsw":
+        if WINDOW_CLEARS and node.ever and rng.random() < 0.12:
+            return "c"                      # clear (only a window that has been pushed to)
         return f"^{rng.randint(0, 99)}"
     if k == "tsd":
         keys = [str(i) if node.shape[1] == "int" else (chr(ord('a') + i) if universe <= 26 else f"k{i}") for i in range(universe)]
@@ -56,6 +63,47 @@ def gen_cscript(rng, shape_name, start, end, *, effective=False, allow_invalidat
         t0 = rng.choice(times)
         times = sorted(set(times) | {t for t in (t0 + 1, t0 + 2, t0 + 3) if t < end})
     out = []
+    if shape_name in ("tss32", "tsd32", "tss", "tsd") and not big and rng.random() < (0.6 if shape_name.endswith("32") else 0.15):
+        # capacity-boundary histories: fill to exactly 8 / 16 / 32 live keys, then cycles that remove one key and add a NEW one
+        # (the removed slot is still pending when the insert finds the table full and makes it grow), removals followed by
+        # re-adds, shrinking and growing again
+        def key_op(kind, k):
+            if shape_name.startswith("tss"):
+                return ("+%d" if kind == "add" else "-%d") % k
+            return (f"[{k}]={rng.randint(0, 99)}" if kind == "add" else f"x[{k}]")
+        live, nxt, t = [], 100, start
+        target = rng.choice([8, 16, 32])
+        ops = []
+        while len(live) < target:
+            live.append(nxt)
+            ops.append(key_op("add", nxt))
+            nxt += 1
+            if len(ops) >= rng.choice([3, 8, 40]) or len(live) == target:
+                for op in ops:
+                    node.apply(op, t)
+                out.append(f"{t}|" + ",".join(ops))
+                ops, t = [], t + 1
+                if t >= end - 4:
+                    break
+        while t < end - 1:
+            ops = []
+            for _ in range(rng.choice([1, 1, 2, 3])):
+                if live:
+                    k = live.pop(rng.randrange(len(live)))
+                    ops.append(key_op("rem", k))
+            for _ in range(rng.choice([1, 1, 2, 4])):
+                live.append(nxt)
+                ops.append(key_op("add", nxt))
+                nxt += 1
+            if rng.random() < 0.3:
+                rng.shuffle(ops)
+            good = []
+            for op in ops:
+                node.apply(op, t)
+                good.append(op)
+            out.append(f"{t}|" + ",".join(good))
+            t += rng.choice([1, 1, 2])
+        return out
     for t in times:
         nops = rng.choice([1, 1, 2, 3, 5]) if not big else rng.choice([5, 20, 40])
         if shape_name == "tsw":
